@@ -107,7 +107,12 @@ type Select struct {
 	Where  Expr
 }
 
-type UnionAll struct{ L, R Body }
+// UnionAll is UNION ALL; with Distinct it is UNION, used only as the body of a recursive table (what "equal rows" are
+// in general is C04's subject: the catalogue keeps such relations free of values that only a normalisation equates)
+type UnionAll struct {
+	L, R     Body
+	Distinct bool
+}
 
 type Field struct {
 	Star  bool
@@ -192,7 +197,12 @@ func (s *Select) bodySQL() string {
 	return sb.String()
 }
 
-func (u *UnionAll) bodySQL() string { return u.L.bodySQL() + " UNION ALL " + u.R.bodySQL() }
+func (u *UnionAll) bodySQL() string {
+	if u.Distinct {
+		return u.L.bodySQL() + " UNION " + u.R.bodySQL()
+	}
+	return u.L.bodySQL() + " UNION ALL " + u.R.bodySQL()
+}
 
 func (r Ref) tableSQL() string {
 	if r.As != "" {
@@ -372,6 +382,9 @@ func (ev *Ev) cte(c *CTE, sc scope) (*Rel, error) {
 		}
 		acc := base.clone()
 		acc.Ordered = false
+		if u.Distinct {
+			acc.Rows = distinctRows(acc.Rows)
+		}
 		tmp := base
 		for iter := 0; ; iter++ {
 			if iter > 200 {
@@ -392,6 +405,10 @@ func (ev *Ev) cte(c *CTE, sc scope) (*Rel, error) {
 				break
 			}
 			acc.Rows = append(acc.Rows, step.Rows...)
+			if u.Distinct {
+				// UNION: the combined result keeps one of equal rows; the next iteration still works on the whole result of this one
+				acc.Rows = distinctRows(acc.Rows)
+			}
 			tmp = step
 		}
 		rel = acc
@@ -406,6 +423,22 @@ func (ev *Ev) cte(c *CTE, sc scope) (*Rel, error) {
 		return nil, err
 	}
 	return rel, nil
+}
+
+func distinctRows(rows [][]rv.V) [][]rv.V {
+	seen := map[string]bool{}
+	out := rows[:0:0]
+	for _, r := range rows {
+		k := ""
+		for _, v := range r {
+			k += v.Key() + "\x1f"
+		}
+		if !seen[k] {
+			seen[k] = true
+			out = append(out, r)
+		}
+	}
+	return out
 }
 
 func nameCols(rel *Rel, c *CTE) error {
@@ -426,6 +459,9 @@ func (ev *Ev) body(b Body, sc scope) (*Rel, error) {
 	case *Select:
 		return ev.sel(x, sc)
 	case *UnionAll:
+		if x.Distinct {
+			return nil, errf("model", "UNION outside a recursive table is not modelled")
+		}
 		l, err := ev.body(x.L, sc)
 		if err != nil {
 			return nil, err
